@@ -158,6 +158,11 @@ def _show(v):
 QUERY_TEXT = 'query Q($note: String = "two  spaces   three") {\n  x(s: "a  b   c", b: """\n    block  text\n  """)\n}'
 
 
+# a long operation (several kB, non-ASCII, fragments appended): the text travels whole, whatever its length
+LONG_QUERY_TEXT = "query Long {\n" + "".join(f'  f{i}: item(note: "naïve text number {i} – with  double  spaces") {{ ...Bits }}\n' for i in range(120)) + \
+    "}\n\nfragment Bits on Item {\n  id\n  name\n}\n"
+
+
 def _decode_multipart(request):
     import email
     import email.policy
@@ -186,11 +191,12 @@ def bounded_wire(tier, seed):
         {"file": U[0], "when": datetime.datetime(2020, 1, 2, 3, 4, 5), "day": datetime.date(2020, 1, 2), "amount": decimal.Decimal("1.5")},
         {"when": datetime.datetime(2020, 1, 2, 3, 4, 5), "ids": [uuid.UUID(int=7)]},
     ]
+    long_trees = [{"a": 1}, {"file": U[0]}, {"text": "long value " * 600}]
     for m, k in CLIENTS:
         mod = importlib.import_module(DEP + m)
         cls = getattr(mod, k)
         for tracer in ((None, "t") if k.endswith("OpenTelemetry") else (None,)):
-            for tree in trees:
+            for text, tree in [(QUERY_TEXT, t) for t in trees] + [(LONG_QUERY_TEXT, t) for t in long_trees]:
                 cases += 1
                 seen = []
 
@@ -203,20 +209,20 @@ def bounded_wire(tier, seed):
                 try:
                     if "Async" in k:
                         client = cls(http_client=httpx.AsyncClient(transport=httpx.MockTransport(handler)), **kw)
-                        asyncio.run(client.execute(QUERY_TEXT, operation_name="Q", variables=tree, headers={"X-T": "1"}))
+                        asyncio.run(client.execute(text, operation_name="Q", variables=tree, headers={"X-T": "1"}))
                     else:
                         client = cls(http_client=httpx.Client(transport=httpx.MockTransport(handler)), **kw)
-                        client.execute(QUERY_TEXT, operation_name="Q", variables=tree, headers={"X-T": "1"})
-                    bad = _check_wire(tree, seen, client)
+                        client.execute(text, operation_name="Q", variables=tree, headers={"X-T": "1"})
+                    bad = _check_wire(tree, seen, client, text)
                 except Exception as e:      # noqa
                     bad = [f"raises-{type(e).__name__}: {str(e)[:120]}"]
                 for u in U:
                     u.content.seek(0)
                 if bad:
-                    fails.append(dict(inputs=dict(client=k, tracer=bool(tracer), variables=_show(tree)), failed=bad, outcome=None))
+                    fails.append(dict(inputs=dict(client=k, tracer=bool(tracer), variables=str(_show(tree))[:300], long_text=text is LONG_QUERY_TEXT), failed=bad, outcome=None))
     return dict(function=f"{DEP}base_client:BaseClient.execute", name="bounded.requests-on-the-wire",
                 kind="bounded stand-in (end-to-end through httpx.MockTransport, native)",
-                domain=f"{len(trees)} variables trees (none, UNSET, uploads nested/aliased/inside generated models) x 4 clients x tracer on/off",
+                domain=f"{len(trees)} variables trees (none, UNSET, uploads nested/aliased/inside generated models) x 4 clients x tracer on/off; + a 9 kB operation text with 3 trees (incl. a 6 kB string variable)",
                 cases=cases, failed=len(fails), failures=fails)
 
 
@@ -226,7 +232,8 @@ def _jsonable(v):
     return json.loads(json.dumps(v, default=to_jsonable_python))
 
 
-def _check_wire(tree, seen, client):
+def _check_wire(tree, seen, client, text=None):
+    text = QUERY_TEXT if text is None else text
     bad = []
     if len(seen) != 1:
         return ["exactly-one-request"]
@@ -239,7 +246,7 @@ def _check_wire(tree, seen, client):
         if req.headers.get("content-type") != "application/json":
             bad.append("json-content-type")
         body = json.loads(req.content)
-        if body != {"query": QUERY_TEXT, "operationName": "Q", "variables": _jsonable(conv)}:
+        if body != {"query": text, "operationName": "Q", "variables": _jsonable(conv)}:
             bad.append("body-carries-exactly-query-operationName-variables")
         return bad
     if not req.headers.get("content-type", "").startswith("multipart/form-data"):
@@ -247,7 +254,7 @@ def _check_wire(tree, seen, client):
     parts = _decode_multipart(req)
     ops = json.loads(parts["operations"]["payload"])
     fmap = json.loads(parts["map"]["payload"])
-    if ops != {"query": QUERY_TEXT, "operationName": "Q", "variables": _jsonable(nulled(conv))}:
+    if ops != {"query": text, "operationName": "Q", "variables": _jsonable(nulled(conv))}:
         bad.append("operations-has-null-at-every-file-position")
     file_parts = {k: v for k, v in parts.items() if k not in ("operations", "map")}
     distinct = []
